@@ -83,6 +83,17 @@ CLAIMED.update({
         ref="DESIGN.md §3 C10", tech="TLA+ IprSpecifiers: TLC enumerates all subsets with required answers, replayed; register-machine trace validation",
         note="Trusted: TLC, the basis list in spec/IprSpecifiers.tla (from the documented accessors), harness/specs.cxx. "
              "Pairs of subsets are covered against 23 probes per subset, not all 2^36 pairs."),
+    "C12": dict(
+        text="IprRegions.tla: every call that opens a region or adds a member appends a fixed list of entities (construct, "
+             "region(s), members) with enclosing region, owner, global flag, outward-walk length, bound declarations, home "
+             "region, level and position; invariants WellFounded, OnlyRootGlobal, OwnerIsEntity, HandlerShape, Positions. TLC "
+             "enumerates every sequence of 3 calls over all 19 operations (units and modules included) and deeper sequences "
+             "of nesting/member operations; each is replayed and every created entity compared. Random nestings are "
+             "validated by the trace spec.",
+        ref="DESIGN.md §3 C12", tech="TLA+ IprRegions: exhaustive TLC behaviours replayed + trace validation",
+        note="Trusted: TLC, spec/IprRegions.tla, harness/regions.cxx. Owners the property does not prescribe (sub-regions, "
+             "base lists, requires/where/declarator parameter regions, handler parameter regions) and the home region of an "
+             "exception parameter are not observed."),
     "C16": dict(
         text="IprSubst.tla: substitutions as partial functions. TLC enumerates all make/bind/apply sequences of length 4 "
              "(quick) / 5 (thorough) over 3 parameters from two parameter lists and 2 values; each is replayed and every "
